@@ -1,26 +1,28 @@
 import Log4rsModel.Reconfig.Swap
 /-
-C15 (a), reconfiguring threadS — `Handle::set_config` is two global writes (src/lib.rs):
+C15 (a), reconfiguring threadS — `Handle::set_config` makes two process-wide writes (src/lib.rs):
 
   pub fn set_config(&self, config: Config) {
-      let shared = SharedLogger::new(config);
-      log::set_max_level(shared.root.max_log_level());     -- write 1: the facade's gate
-      self.shared.store(Arc::new(shared));                  -- write 2: the snapshot pointer
+      static SET_CONFIG: Mutex<()> = Mutex::new(());
+      let shared = Arc::new(SharedLogger::new(config));           -- built before the lock is taken
+      let old = { let _guard = SET_CONFIG.lock()…;
+                  log::set_max_level(shared.root.max_log_level());   -- write 1: the facade's gate
+                  self.shared.swap(shared) };                        -- write 2: the snapshot pointer
+      drop(old);                                                   -- dropped after the lock is released
   }
 
 and every record logged through the `log!` macros passes the gate `level <= log::max_level()`
 before `Logger::log` is called at all. The machine of Swap.lean treats `set_config` as one event
-(that is what a single reconfiguring thread looks like to the loggers, see
-`C15_gate_one_config`); here the two writes are separate events, so that two `set_config` calls
-can interleave, and a record is abstracted to "gate, then routed under the snapshot it loads"
-(which is what `C15_snapshot_atomic` proves of `Logger::log`).
+(which is what the loggers see of it, see `C15_gate_one_config`); here the two writes are separate
+events, so that `set_config` calls can interleave, and a record is abstracted to "gate, then routed
+under the snapshot it loads" (which is what `C15_snapshot_atomic` proves of `Logger::log`).
 
-`setConfigSerialised = false` is the code as it is. `true` is the proposed patch: a process-wide
-lock held across both writes.
+`serialised = true` is the code as it is now (since 411af7e, both writes under one lock: a second
+call waits). `serialised = false` is the code before: two unsynchronised writes.
 -/
 namespace Log4rs.Reconfig
 
-/-- The model flag of finding `C15/set-config-two-writers-mixed`: `false` = `/repo` as it is. -/
+/-- The model flag of finding `C15/set-config-two-writers-mixed`: `true` = `/repo` as it is now (411af7e). -/
 def setConfigSerialised : Bool := true
 
 /-- `ConfiguredLogger::max_log_level`: the most verbose level any logger of the configuration has -/
